@@ -209,7 +209,7 @@ def judge_trace(case):
 def entry_space(tier, seed):
     q = tier == "quick"
     alph = {
-        "mixture": ["H2O_EtOH", "MeOH_DMC", "S2", "S4"] if q else [m for m in U.ALL_MIXTURES if m != "S3"],
+        "mixture": ["H2O_EtOH", "MeOH_DMC", "S2", "S5"] if q else [m for m in U.ALL_MIXTURES if m != "S3"],
         "model": ["NRTL", "UNIQUAC"],
         "mode": ["vac", ("T", -60.0), ("p", 0.5)] if q else ["vac", ("T", 120.0), ("T", -60.0), ("T", -20.0), ("p", 0.5), ("p", 5.0)],
         "P": [(1e-2, 1e-4), (1e-4, 1e-2)],
